@@ -44,6 +44,8 @@ impl Msg {
 }
 
 pub struct Cluster {
+    /// how far the replication throttles are aged before each round (time between rounds)
+    pub spacing: Duration,
     pub nodes: Vec<NodeRig>,
     ids: Vec<PeerId>,
     inflight: Vec<Msg>,
@@ -77,7 +79,7 @@ impl Cluster {
                 }
             }
         }
-        Cluster { nodes, ids, inflight: vec![], roots, advertised: vec![], fetches: vec![] }
+        Cluster { spacing: Duration::from_secs(120),  nodes, ids, inflight: vec![], roots, advertised: vec![], fetches: vec![] }
     }
 
     fn idx_of(&self, p: &PeerId) -> Option<usize> {
@@ -156,7 +158,7 @@ impl Cluster {
     /// One replication round on every node, all message delivery orders chosen by `ch`.
     pub fn round(&mut self, ch: &mut Chooser) {
         for i in 0..self.nodes.len() {
-            self.nodes[i].d.driver.verif_age_replication(Duration::from_secs(120));
+            self.nodes[i].d.driver.verif_age_replication(self.spacing);
             let net = self.nodes[i].d.network.clone();
             let _ = self.nodes[i].d.exec.capture(None, "trigger", || net.trigger_interval_replication());
         }
@@ -238,28 +240,39 @@ struct Scenario {
     kind: &'static str,
     /// the first seed's disk write is held back during round 1
     first_write_pending: bool,
+    /// (node, record) accepted after the first round
+    late: Vec<(usize, Record)>,
+    /// seconds between rounds (the replication throttles are aged by this much) and number of rounds
+    spacing: u64,
+    rounds: usize,
 }
 
 fn scenarios() -> Vec<Scenario> {
     let chunk = rec::chunk(b"c09 chunk");
+    let chunk2 = rec::chunk(b"c09 second chunk");
     let fx = rec::reg_fixture(5, b"c09-reg");
     let t = [rec::tx(5, 1, 5), rec::tx(5, 2, 5), rec::tx(5, 3, 5)];
     let tk = rec::tx_key(&t[0]);
     let p1 = rec::pad(5, 1, b"pad one", 5);
     let p3 = rec::pad(5, 3, b"pad three", 5);
     vec![
-        Scenario { name: "chunk on A only", nodes: 2, seeds: vec![(0, rec::chunk_record(&chunk))], key: rec::chunk_key(&chunk), kind: "chunk", first_write_pending: false },
-        Scenario { name: "chunk on A only, 3 nodes", nodes: 3, seeds: vec![(0, rec::chunk_record(&chunk))], key: rec::chunk_key(&chunk), kind: "chunk", first_write_pending: false },
-        Scenario { name: "register ops{0} on A, ops{1} on B", nodes: 2, seeds: vec![(0, rec::reg_record(&fx.with_ops(&[0]))), (1, rec::reg_record(&fx.with_ops(&[1])))], key: rec::reg_key(&fx.base), kind: "register", first_write_pending: false },
-        Scenario { name: "register ops{0,1} on A, ops{1} on B", nodes: 2, seeds: vec![(0, rec::reg_record(&fx.with_ops(&[0, 1]))), (1, rec::reg_record(&fx.with_ops(&[1])))], key: rec::reg_key(&fx.base), kind: "register", first_write_pending: false },
-        Scenario { name: "transactions [t1] on A, [t2] on B", nodes: 2, seeds: vec![(0, rec::txs_record(tk.clone(), &[t[0].clone()])), (1, rec::txs_record(tk.clone(), &[t[1].clone()]))], key: tk.clone(), kind: "transaction", first_write_pending: false },
-        Scenario { name: "transactions [t1] on A, [t2] on B, [t3] on C", nodes: 3, seeds: vec![(0, rec::txs_record(tk.clone(), &[t[0].clone()])), (1, rec::txs_record(tk.clone(), &[t[1].clone()])), (2, rec::txs_record(tk.clone(), &[t[2].clone()]))], key: tk.clone(), kind: "transaction", first_write_pending: false },
-        Scenario { name: "scratchpad c=1 on A, c=3 on B", nodes: 2, seeds: vec![(0, rec::pad_record(&p1)), (1, rec::pad_record(&p3))], key: rec::pad_key(&p1), kind: "scratchpad", first_write_pending: false },
-        Scenario { name: "scratchpad c=3 on A only", nodes: 2, seeds: vec![(0, rec::pad_record(&p3))], key: rec::pad_key(&p3), kind: "scratchpad", first_write_pending: false },
+        Scenario { name: "chunk on A only", nodes: 2, seeds: vec![(0, rec::chunk_record(&chunk))], key: rec::chunk_key(&chunk), kind: "chunk", first_write_pending: false, late: vec![], spacing: 120, rounds: 3 },
+        Scenario { name: "chunk on A only, 3 nodes", nodes: 3, seeds: vec![(0, rec::chunk_record(&chunk))], key: rec::chunk_key(&chunk), kind: "chunk", first_write_pending: false, late: vec![], spacing: 120, rounds: 3 },
+        Scenario { name: "register ops{0} on A, ops{1} on B", nodes: 2, seeds: vec![(0, rec::reg_record(&fx.with_ops(&[0]))), (1, rec::reg_record(&fx.with_ops(&[1])))], key: rec::reg_key(&fx.base), kind: "register", first_write_pending: false, late: vec![], spacing: 120, rounds: 3 },
+        Scenario { name: "register ops{0,1} on A, ops{1} on B", nodes: 2, seeds: vec![(0, rec::reg_record(&fx.with_ops(&[0, 1]))), (1, rec::reg_record(&fx.with_ops(&[1])))], key: rec::reg_key(&fx.base), kind: "register", first_write_pending: false, late: vec![], spacing: 120, rounds: 3 },
+        Scenario { name: "transactions [t1] on A, [t2] on B", nodes: 2, seeds: vec![(0, rec::txs_record(tk.clone(), &[t[0].clone()])), (1, rec::txs_record(tk.clone(), &[t[1].clone()]))], key: tk.clone(), kind: "transaction", first_write_pending: false, late: vec![], spacing: 120, rounds: 3 },
+        Scenario { name: "transactions [t1] on A, [t2] on B, [t3] on C", nodes: 3, seeds: vec![(0, rec::txs_record(tk.clone(), &[t[0].clone()])), (1, rec::txs_record(tk.clone(), &[t[1].clone()])), (2, rec::txs_record(tk.clone(), &[t[2].clone()]))], key: tk.clone(), kind: "transaction", first_write_pending: false, late: vec![], spacing: 120, rounds: 3 },
+        Scenario { name: "scratchpad c=1 on A, c=3 on B", nodes: 2, seeds: vec![(0, rec::pad_record(&p1)), (1, rec::pad_record(&p3))], key: rec::pad_key(&p1), kind: "scratchpad", first_write_pending: false, late: vec![], spacing: 120, rounds: 3 },
+        Scenario { name: "scratchpad c=3 on A only", nodes: 2, seeds: vec![(0, rec::pad_record(&p3))], key: rec::pad_key(&p3), kind: "scratchpad", first_write_pending: false, late: vec![], spacing: 120, rounds: 3 },
         // A has accepted its copy but the disk write is still pending when B's advertisement arrives
-        Scenario { name: "transactions [t1] on A (write pending), [t2] on B", nodes: 2, seeds: vec![(0, rec::txs_record(tk.clone(), &[t[0].clone()])), (1, rec::txs_record(tk.clone(), &[t[1].clone()]))], key: tk.clone(), kind: "transaction", first_write_pending: true },
-        Scenario { name: "register ops{0} on A (write pending), ops{1} on B", nodes: 2, seeds: vec![(0, rec::reg_record(&fx.with_ops(&[0]))), (1, rec::reg_record(&fx.with_ops(&[1])))], key: rec::reg_key(&fx.base), kind: "register", first_write_pending: true },
-        Scenario { name: "chunk on A only (write pending)", nodes: 2, seeds: vec![(0, rec::chunk_record(&chunk))], key: rec::chunk_key(&chunk), kind: "chunk", first_write_pending: true },
+        Scenario { name: "transactions [t1] on A (write pending), [t2] on B", nodes: 2, seeds: vec![(0, rec::txs_record(tk.clone(), &[t[0].clone()])), (1, rec::txs_record(tk.clone(), &[t[1].clone()]))], key: tk.clone(), kind: "transaction", first_write_pending: true, late: vec![], spacing: 120, rounds: 3 },
+        Scenario { name: "register ops{0} on A (write pending), ops{1} on B", nodes: 2, seeds: vec![(0, rec::reg_record(&fx.with_ops(&[0]))), (1, rec::reg_record(&fx.with_ops(&[1])))], key: rec::reg_key(&fx.base), kind: "register", first_write_pending: true, late: vec![], spacing: 120, rounds: 3 },
+        Scenario { name: "chunk on A only (write pending)", nodes: 2, seeds: vec![(0, rec::chunk_record(&chunk))], key: rec::chunk_key(&chunk), kind: "chunk", first_write_pending: true, late: vec![], spacing: 120, rounds: 3 },
+        // records accepted after the first round, with rounds 31 s apart (inside the 45 s per-target throttle, outside the 30 s
+        // per-node one — the rhythm of a node whose routing table keeps changing) and 46 s apart
+        Scenario { name: "chunk on A, a second chunk on A after round 1 (rounds 31 s apart)", nodes: 2, seeds: vec![(0, rec::chunk_record(&chunk))], key: rec::chunk_key(&chunk2), kind: "chunk", first_write_pending: false, late: vec![(0, rec::chunk_record(&chunk2))], spacing: 31, rounds: 6 },
+        Scenario { name: "chunk on A, a second chunk on A after round 1 (rounds 46 s apart)", nodes: 2, seeds: vec![(0, rec::chunk_record(&chunk))], key: rec::chunk_key(&chunk2), kind: "chunk", first_write_pending: false, late: vec![(0, rec::chunk_record(&chunk2))], spacing: 46, rounds: 4 },
+        Scenario { name: "register ops{0} on A and B, ops{0,1} accepted by A after round 1 (rounds 31 s apart)", nodes: 2, seeds: vec![(0, rec::reg_record(&fx.with_ops(&[0]))), (1, rec::reg_record(&fx.with_ops(&[0])))], key: rec::reg_key(&fx.base), kind: "register", first_write_pending: false, late: vec![(0, rec::reg_record(&fx.with_ops(&[0, 1])))], spacing: 31, rounds: 6 },
     ]
 }
 
@@ -289,10 +302,10 @@ fn content(rig: &mut NodeRig, key: &RecordKey, kind: &str) -> String {
 
 fn expected_converged(sc: &Scenario) -> String {
     match sc.kind {
-        "chunk" => format!("chunk:{}", mc_core::hex8(&sc.seeds[0].1.value)),
+        "chunk" => format!("chunk:{}", mc_core::hex8(&sc.seeds.iter().chain(sc.late.iter()).find(|(_, r)| r.key == sc.key).unwrap().1.value)),
         "register" => {
             let mut merged: Option<SignedRegister> = None;
-            for (_, r) in &sc.seeds {
+            for (_, r) in sc.seeds.iter().chain(sc.late.iter()) {
                 let reg: SignedRegister = try_deserialize_record(r).unwrap();
                 match &mut merged {
                     None => merged = Some(reg),
@@ -304,14 +317,14 @@ fn expected_converged(sc: &Scenario) -> String {
         }
         "transaction" => {
             let mut s: BTreeSet<u8> = BTreeSet::new();
-            for (_, r) in &sc.seeds {
+            for (_, r) in sc.seeds.iter().chain(sc.late.iter()) {
                 let ts: Vec<Transaction> = try_deserialize_record(r).unwrap();
                 s.extend(ts.iter().map(|t| t.content[0]));
             }
             format!("transactions:{s:?}")
         }
         _ => {
-            let best = sc.seeds.iter().map(|(_, r)| try_deserialize_record::<Scratchpad>(r).unwrap().count()).max().unwrap();
+            let best = sc.seeds.iter().chain(sc.late.iter()).map(|(_, r)| try_deserialize_record::<Scratchpad>(r).unwrap().count()).max().unwrap();
             format!("scratchpad:c={best} valid=true")
         }
     }
@@ -325,6 +338,7 @@ fn run_scenario(run: &Run, sc: &Scenario, bound: usize, rounds: usize) {
         SchedOpts { label: sc.name.to_string(), bound, wall_cap: Some(Duration::from_secs(run.pick(30, 900))), exec_cap: None },
         |ch: &mut Chooser| {
             let mut cl = Cluster::new(sc.nodes);
+            cl.spacing = Duration::from_secs(sc.spacing);
             for (i, (n, r)) in sc.seeds.iter().enumerate().rev() {
                 if i == 0 && sc.first_write_pending {
                     cl.seed_with_write_pending(*n, r.clone());
@@ -332,11 +346,15 @@ fn run_scenario(run: &Run, sc: &Scenario, bound: usize, rounds: usize) {
                     cl.seed(*n, r.clone());
                 }
             }
-            let seeded: Vec<usize> = sc.seeds.iter().map(|(n, _)| *n).collect();
+            // nodes that hold the record under sc.key by an accepted upload (they must advertise it)
+            let seeded: Vec<usize> = sc.seeds.iter().chain(sc.late.iter()).filter(|(_, r)| r.key == sc.key).map(|(n, _)| *n).collect();
             for round in 0..rounds {
                 cl.round(ch);
                 if round == 0 {
                     cl.release_held();
+                    for (n, r) in &sc.late {
+                        cl.seed(*n, r.clone());
+                    }
                 }
             }
             let got: Vec<String> = (0..sc.nodes).map(|i| content(&mut cl.nodes[i], &sc.key, sc.kind)).collect();
@@ -405,14 +423,15 @@ pub fn main(tier: Option<&str>) {
     run.rule(
         "2-3 real nodes (SwarmDriver + Node) wired in-process, mutual routing-table neighbours; seeds through the real replication-store \
          path: a chunk on A only, divergent registers (disjoint and nested op sets), divergent transaction sets (2 and 3 nodes), scratchpads \
-         with counters 1 and 3, a scratchpad on A only; then 3 rounds of interval replication on every node with the throttles aged; every \
+         with counters 1 and 3, a scratchpad on A only, the same with A's disk write held back during round 1, and records accepted by A after the first round; then 3 rounds of \
+         interval replication on every node 120 s apart (6 rounds 31 s apart / 4 rounds 46 s apart for the late-record scenarios); every \
          delivery order of the in-flight requests/responses with <=1(2) deviations from FIFO. Plus advertisements from a stranger and from self.",
     );
     run.assume("the harness is the transport: it delivers a Replicate to the receiver's real handler with the holder claimed in the message (the real handler also only sees the claimed holder)");
     run.assume("no responsible range is set (small networks): every neighbour is a replication target and every key is in range");
     let bound = run.pick(1, 2);
     for sc in scenarios() {
-        run_scenario(&run, &sc, bound, 3);
+        run_scenario(&run, &sc, bound, sc.rounds);
     }
     foreign_advertisements(&run);
     run.finish();
